@@ -17,7 +17,7 @@ ASSUMPTIONS = ["clang's CFG (with implicit destructors) is a faithful over-appro
                "the lock idioms in engine/kinds.py are the only ways these functions acquire or release mtx_",
                "detail::condition_variable::wait*/notify_one behave as decided under C02/C07"]
 THOROUGH_CONFIGS = [["-UNDEBUG", "-DPIKA_DEBUG"]]
-FLOORS = {"C06.R1": 8, "C06.R2": 4, "C06.R3": 2, "C06.R4": 4, "C06.R5": 6, "C06.R6": 6, "C06.R7": 5}
+FLOORS = {"C06.R1": 8, "C06.R2": 4, "C06.R3": 2, "C06.R4": 4, "C06.R5": 6, "C06.R6": 6, "C06.R7": 5, "C06.R8": 6}
 
 INVALID = "pika::threads::detail::invalid_thread_id"
 OWNER = "this->owner_id_"
@@ -57,6 +57,10 @@ def run(rep, tier):
                        "lock() returns only through a successful acquisition")
     rep.rule("C06.R6", "K4: recursive_mutex_impl: inner mutex taken before owner/recursion are set, released only at depth 0")
     rep.rule("C06.R7", "K9: lock types are neither copyable nor movable")
+    rep.rule("C06.R8", "K4/K7: mutex::lock refuses exactly when the caller already owns the mutex (no wait, no acquisition on that "
+                       "edge; every other give-up is an error reported by the wait); every turn of its owner loop parks in "
+                       "cond_.wait; timed_mutex::try_lock_until gives up after its wait only on timeout, error or a mutex "
+                       "re-observed as owned - a wake-up that found the mutex free is never swallowed")
 
     F = facts(rep, lib("synchronization", "src/mutex.cpp"), [r"^pika::(mutex|timed_mutex)::"], [r"^pika::mutex$"])
     names = ["pika::mutex::lock", "pika::mutex::try_lock", "pika::mutex::unlock", "pika::timed_mutex::try_lock_until"]
@@ -113,14 +117,19 @@ def run(rep, tier):
     # R3: unlock
     fn = fns["pika::mutex::unlock"]
     clears = [(b, i) for b, i, ev, rhs in owner_writes(fn) if rhs == INVALID]
-    if len(clears) != 1:
+    if not clears:
+        rep.bad("C06.R3", fn, fn.loc, "owner-not-cleared", "mutex::unlock() never clears owner_id_: the mutex stays owned, every later lock() blocks")
+        clears = None
+    elif len(clears) != 1:
         raise AnalysisBroken("mutex::unlock: expected one owner_id_ = invalid, found %d" % len(clears))
 
     def is_notify(ev):
         return ev.get("k") == "call" and callee_short(ev) == "notify_one" and ev.get("recv") is not None and \
             P(ev["recv"]) == "this->cond_"
-    missing = always_followed_by(fn, clears[0], is_notify)
-    if missing:
+    missing = always_followed_by(fn, clears[0], is_notify) if clears else None
+    if clears is None:
+        pass
+    elif missing:
         rep.bad("C06.R3", fn, fn.loc, "notify-missing", "a path from owner_id_ = invalid reaches the end of unlock() without "
                 "cond_.notify_one: a blocked lock() is never woken (unlock lost)", path=[{"pos": list(p)} for p in missing])
     else:
@@ -166,6 +175,8 @@ def run(rep, tier):
             else:
                 raise AnalysisBroken("%s returns a non-literal (%s): rule C06.R4 needs updating" % (n, T(val)))
 
+    misuse_and_wait_rules(rep, fns)
+
     # R5/R6: header-only lock types through the driver
     D = facts(rep, driver("c06_mutex.cpp"),
               [r"^pika::concurrency::detail::spinlock::", r"^pika::detail::spinlock::", r"^pika::detail::recursive_mutex_impl::"])
@@ -175,6 +186,168 @@ def run(rep, tier):
     n, failed = witness(rep, "C06.R7", driver("../witness/C06.cpp"))
     for _ in range(n - failed):
         rep.ok("C06.R7", "witness:C06.cpp", "static_assert holds")
+
+
+def misuse_and_wait_rules(rep, fns):
+    """C06.R8 - see the rule text."""
+    from engine.kinds import loop_of, on_every_cycle
+    lk = fns["pika::mutex::lock"]
+    tlu = fns["pika::timed_mutex::try_lock_until"]
+
+    def self_var(fn):
+        vs = [ev["var"] for _, _, ev in fn.all_events() if ev.get("k") == "decl" and ev.get("init") is not None
+              and strip(ev["init"]).get("k") == "call" and callee_short(strip(ev["init"])) == "get_self_id"]
+        if len(vs) != 1:
+            raise AnalysisBroken("%s: the local holding get_self_id() not found" % fn.qname)
+        return vs[0]
+
+    def is_wait(ev):
+        return ev.get("k") == "call" and ev.get("recv") is not None and P(ev["recv"]) == "this->cond_" and \
+            callee_short(ev) in ("wait", "wait_until", "wait_for")
+
+    # --- lock(): refusal <=> owner == self.  "owner == self" cannot change while the caller is inside lock() (only the
+    # caller itself ever writes its own id), so the fact is not killed by the wait's release of mtx_.
+    sv = self_var(lk)
+    own_atom = "%s == %s" % tuple(sorted([sv, OWNER]))
+    ff = FactFlow(lk)
+    writes = set((b, i) for b, i, ev, rhs in owner_writes(lk) if rhs != INVALID)
+    n = 0
+    for b, i, ev in lk.all_events():
+        fb = ff.before.get((b, i))
+        if fb is None:
+            continue
+        refusal = ev.get("k") == "call" and callee_short(ev) in ("throws_if", "throw_exception") or ev.get("k") == "throw"
+        if refusal:
+            n += 1
+            if (own_atom, True) in fb:
+                rep.ok("C06.R8", lk, "the deadlock refusal at %s is raised only when owner_id_ == caller" % loc_of(ev))
+            else:
+                rep.bad("C06.R8", lk, loc_of(ev), "refusal-not-owner", "lock() reports an error on a path where the caller was not "
+                        "established to be the owner (facts: %s): ordinary lockers are refused / a re-lock is not detected" % sorted(fb))
+        if is_wait(ev) or (b, i) in writes:
+            n += 1
+            if (own_atom, False) in fb:
+                rep.ok("C06.R8", lk, "%s at %s only after owner_id_ != caller was established" % ("wait" if is_wait(ev) else "acquisition", loc_of(ev)))
+            else:
+                rep.bad("C06.R8", lk, loc_of(ev), "relock-not-refused:" + ("wait" if is_wait(ev) else "acquire"),
+                        "lock() %s without having excluded that the caller already owns the mutex (re-locking is not "
+                        "reported; the caller waits for itself)" % ("waits" if is_wait(ev) else "takes ownership"))
+    if n < 2:
+        raise AnalysisBroken("mutex::lock: refusal / acquisition sites not found (%d)" % n)
+    # every normal return without acquisition: owner == self (refused) or the wait reported an error
+    must_w, _, must_w_out = forward(lk, frozenset(), lambda st, ev, pos: st | {"w"} if pos in writes else st, None, lambda a, b: a & b)
+    exits = [(b, i, ev, ff.before.get((b, i)), must_w.get((b, i))) for b, i, ev in lk.all_events() if ev.get("k") == "return"]
+    # falling off the end of the function is an exit as well
+    for bid, blk in lk.blocks.items():
+        if any(t == lk.exit for _, t in lk.succs(bid)) and not any(e.get("k") == "return" for e in blk.events) and bid in ff.block_out:
+            exits.append((bid, len(blk.events), {"loc": blk.events[-1].get("loc") if blk.events else lk.loc}, ff.block_out[bid], must_w_out.get(bid)))
+    for b, i, ev, fb, mw in exits:
+        if fb is None or "w" in (mw or ()):
+            continue
+        if (own_atom, True) in fb or any(t and a.split(".")[0] in ("ec",) or (t and re.match(r"^\w+$", a) and a != sv and "owner" not in a) for a, t in fb):
+            rep.ok("C06.R8", lk, "lock() returns without the mutex at %s only after a refusal or an error of the wait" % loc_of(ev))
+        else:
+            rep.bad("C06.R8", lk, loc_of(ev), "return-without-lock", "lock() returns normally without owning the mutex and without an error "
+                    "(facts: %s)" % sorted(fb))
+    # every turn of the owner loop parks
+    hdr = [bid for bid, blk in lk.blocks.items() if blk.cond is not None and FREE_ATOM in [a for a, _ in
+           __import__("engine.kinds", fromlist=["implied_facts"]).implied_facts(blk.cond, True) |
+           __import__("engine.kinds", fromlist=["implied_facts"]).implied_facts(blk.cond, False)] and loop_of(lk, bid)]
+    if not hdr:
+        rep.bad("C06.R8", lk, lk.loc, "no-owner-loop", "lock() has no loop that re-tests owner_id_ == invalid after a wake-up")
+    for h in hdr:
+        loop = loop_of(lk, h)
+        wb = [bid for bid in loop if any(is_wait(e) for e in lk.blocks[bid].events)]
+        rest = set(loop) - set(wb)
+        # a cycle through the header that avoids every waiting block?
+        ok = True
+        if not wb:
+            ok = False
+        else:
+            seen, stack = set(), [t for _, t in lk.succs(h) if t in rest]
+            while stack:
+                v = stack.pop()
+                if v == h:
+                    ok = False
+                    break
+                if v in seen:
+                    continue
+                seen.add(v)
+                stack += [t for _, t in lk.succs(v) if t in rest or t == h]
+        if ok:
+            rep.ok("C06.R8", lk, "every turn of the owner loop passes cond_.wait (the internal lock is released while waiting)")
+        else:
+            rep.bad("C06.R8", lk, lk.blocks[h].events[-1].get("loc", lk.loc) if lk.blocks[h].events else lk.loc, "spin-holding-lock",
+                    "the loop that waits for owner_id_ == invalid can turn without cond_.wait: it spins while holding the "
+                    "internal spinlock, which unlock() needs")
+
+    # --- try_lock_until: a 'false' after the wait needs a reason.  Evaluated: from the wait on, with "no timeout, no error,
+    # mutex seen free" every path ends in 'return true' (any shape of the tests: separate ifs, one merged condition,
+    # bool locals); with "timeout" or "still owned" no path takes ownership without having seen the mutex free (R2/R4).
+    from engine.kinds import eval_walk, cond_leaves, expand_locals, eval_tree, Unknown
+    from engine.core import subexprs
+    waits = [(b, i) for b, i, ev in tlu.all_events() if is_wait(ev)]
+    if len(waits) != 1:
+        raise AnalysisBroken("timed_mutex::try_lock_until: expected one timed wait, found %d" % len(waits))
+    env = {}
+    kinds_seen = set()
+
+    def classify(atom):
+        if atom == FREE_ATOM:
+            return "free", True
+        if "timeout" in atom and "==" in atom:
+            return "timeout", False
+        if re.match(r"^\w+(\.operator bool\(\))?$", atom):
+            return "flag", False       # error_code / plain flags: no error
+        return None, None
+    bools = {}
+    for _, _, ev in tlu.all_events():
+        if ev.get("k") == "decl" and ev.get("init") is not None and "bool" in str(ev.get("type", "")):
+            bools[ev["var"]] = cond_atoms(expand_locals(tlu, ev["init"]))
+    for bid, blk in tlu.blocks.items():
+        if blk.cond is None:
+            continue
+        atom, pos = cond_atoms(blk.cond)
+        if atom in bools:
+            k, v = classify(bools[atom][0])
+            if k:
+                kinds_seen.add(k)
+                env[atom] = (v == bools[atom][1])
+                continue
+        k, v = classify(atom)
+        if k:
+            kinds_seen.add(k)
+            env[atom] = v
+    if not {"free", "timeout"} <= kinds_seen:
+        raise AnalysisBroken("timed_mutex::try_lock_until: tests of the wait result / the owner after the wait not found (%s)" % sorted(env))
+    res = eval_walk(tlu, waits[0][0], atom_env=env)
+    for evs, end in res:
+        if not any((b, i) == waits[0] for b, i, _ in evs):
+            continue
+        last = evs[-1][2] if evs else None
+        if end == "return" and last is not None and last.get("e") is not None:
+            v = strip(last["e"])
+            val = None
+            if v.get("k") == "lit":
+                val = v.get("v")
+            else:
+                try:
+                    val = bool(eval_tree(expand_locals(tlu, last["e"]), {}))
+                except Unknown:
+                    at, pos = cond_atoms(expand_locals(tlu, last["e"]))
+                    val = (env[at] == pos) if at in env else None
+            if val is True:
+                rep.ok("C06.R8", tlu, "a wake-up before the deadline that finds the mutex free ends in 'return true' (%s)" % loc_of(last))
+            elif val is False:
+                rep.bad("C06.R8", tlu, loc_of(last), "wakeup-swallowed", "try_lock_until returns false after its wait although the wait did not "
+                        "time out, reported no error and the mutex is free: the unlock that woke this waiter is lost for the other "
+                        "blocked lockers", path=[{"block": b} for b, _, _ in evs][:40])
+            else:
+                raise AnalysisBroken("timed_mutex::try_lock_until: returned expression %s not decided" % T(last["e"]))
+        elif end in ("loop", "limit"):
+            rep.ok("C06.R8", tlu, "re-waits (loop) when woken without the mutex")
+        elif end == "exit":
+            raise AnalysisBroken("timed_mutex::try_lock_until: path without a return value")
 
 
 def exchange_calls(fn, field):
@@ -314,8 +487,19 @@ def recursive_rules(rep, D):
     lk = one("lock")
     ff = FactFlow(lk)
     sets = [(b, i, ev) for b, i, ev in lk.all_events() if is_set_owner(ev)]
-    if len(sets) < 2:
-        raise AnalysisBroken("recursive_mutex_impl::lock: owner/recursion updates not found")
+    inner = [(b, i) for b, i, ev in lk.all_events() if ev.get("k") == "call" and callee_short(ev) == "lock" and
+             ev.get("recv") is not None and P(ev["recv"]) == "this->mtx"]
+    if not inner and not sets:
+        raise AnalysisBroken("recursive_mutex_impl::lock: neither mtx.lock() nor the owner updates found")
+    from engine.kinds import always_followed_by as afb
+    for fld in ("this->locking_context", "this->recursion_count"):
+        for pos in inner:
+            miss = afb(lk, pos, lambda e, fld=fld: is_set_owner(e) and P(e["recv"]) == fld)
+            if miss:
+                rep.bad("C06.R6", lk, lk.loc, "lock:missing:" + fld, "after taking the inner mutex lock() can return without setting %s: the "
+                        "owner is not recorded (the next lock() of the owner blocks on itself / unlock() never reaches depth 0)" % fld)
+            else:
+                rep.ok("C06.R6", lk, "%s is set on every path after mtx.lock()" % fld)
     from engine.kinds import precedes_on_all_paths
     for b, i, ev in sets:
         fb = ff.before.get((b, i))
@@ -370,11 +554,71 @@ def recursive_rules(rep, D):
                     rep.bad("C06.R6", tr, loc_of(ev), "recursive:true", "recursive fast path taken without the owner test")
         if ev.get("k") == "call" and ev.get("op") in ("++",) and P(ev.get("recv")) == "this->recursion_count" and not own:
             rep.bad("C06.R6", tr, loc_of(ev), "recursive:count", "recursion_count incremented by a non-owner")
+    # try_recursive_lock: the depth is raised exactly on the paths that report success
+    incs = [(b, i) for b, i, ev in tr.all_events() if ev.get("k") == "call" and ev.get("op") in ("++", "+=") and
+            P(ev.get("recv")) == "this->recursion_count" or ev.get("k") == "call" and callee_short(ev) in ("fetch_add",) and
+            P(ev.get("recv")) == "this->recursion_count"]
+    may_inc, _, _ = forward(tr, frozenset(), lambda st, ev, pos: st | {"inc"} if pos in incs else st, None, lambda a, b: a | b)
+    must_inc, _, _ = forward(tr, frozenset(), lambda st, ev, pos: st | {"inc"} if pos in incs else st, None, lambda a, b: a & b)
+    for b, i, ev in tr.all_events():
+        if ev.get("k") != "return" or (b, i) not in may_inc:
+            continue
+        v = strip(ev["e"])
+        if v.get("k") == "lit" and v.get("v") is False and "inc" in may_inc[(b, i)]:
+            rep.bad("C06.R6", tr, loc_of(ev), "recursive:false-after-count", "try_recursive_lock reports failure after raising the "
+                    "recursion depth: the caller goes on to the inner mutex (blocks on itself / fails) and the depth never returns to 0")
+        elif v.get("k") == "lit" and v.get("v") is True and "inc" not in must_inc[(b, i)]:
+            rep.bad("C06.R6", tr, loc_of(ev), "recursive:true-without-count", "try_recursive_lock reports success without raising the "
+                    "recursion depth: the matching unlock() releases the mutex one level early")
+        elif v.get("k") == "lit":
+            rep.ok("C06.R6", tr, "return %s at %s agrees with the recursion depth update" % (v.get("v"), loc_of(ev)))
+    # try_lock: succeeds iff the fast path or the inner try_lock succeeded
+    from engine.kinds import eval_walk, eval_tree, Unknown, expand_locals
+    from engine.core import subexprs
+    tlk = one("try_lock")
+    calls = {}
+    for _, _, ev in tlk.all_events():
+        if ev.get("k") == "call" and callee_short(ev) in ("try_recursive_lock", "try_basic_lock"):
+            calls[callee_short(ev)] = T(ev)
+    if set(calls) != {"try_recursive_lock", "try_basic_lock"}:
+        raise AnalysisBroken("recursive_mutex_impl::try_lock: the two acquisition attempts not found (%s)" % sorted(calls))
+    for r_ in (False, True):
+        for b_ in (False, True):
+            env = {calls["try_recursive_lock"]: r_, calls["try_basic_lock"]: b_}
+            vals = set()
+            for evs, end in eval_walk(tlk, tlk.entry, atom_env=env, tree_env=env):
+                if end != "return" or evs[-1][2].get("e") is None:
+                    continue
+                if r_ and any(e.get("k") == "call" and callee_short(e) == "try_basic_lock" for _, _, e in evs) and False:
+                    pass
+                try:
+                    vals.add(bool(eval_tree(evs[-1][2]["e"], env)))
+                except Unknown:
+                    try:
+                        env2 = dict(env)
+                        for c_ in subexprs(expand_locals(tlk, evs[-1][2]["e"]), lambda y: isinstance(y, dict) and y.get("k") == "call"):
+                            if callee_short(c_) == "try_recursive_lock":
+                                env2[T(c_)] = r_
+                            elif callee_short(c_) == "try_basic_lock":
+                                env2[T(c_)] = b_
+                        vals.add(bool(eval_tree(expand_locals(tlk, evs[-1][2]["e"]), env2)))
+                    except Unknown:
+                        vals.add(None)
+            if vals == {r_ or b_}:
+                rep.ok("C06.R6", tlk, "try_lock() is %s when fast path=%s, inner try_lock=%s" % (r_ or b_, r_, b_))
+            elif None in vals or not vals:
+                raise AnalysisBroken("recursive_mutex_impl::try_lock: result not decided for fast path=%s inner=%s" % (r_, b_))
+            else:
+                rep.bad("C06.R6", tlk, tlk.loc, "try_lock:%s/%s" % (r_, b_), "try_lock() returns %s although the recursive fast path %s and "
+                        "the inner try_lock %s" % (sorted(vals), "succeeded" if r_ else "failed", "succeeded" if b_ else "failed"))
     # unlock
     ul = one("unlock")
     ff = FactFlow(ul)
     unl = [(b, i, ev) for b, i, ev in ul.all_events()
            if ev.get("k") == "call" and callee_short(ev) == "unlock" and P(ev.get("recv")) == "this->mtx"]
+    if not unl:
+        rep.bad("C06.R6", ul, ul.loc, "unlock:never", "recursive_mutex_impl::unlock() never releases the inner mutex")
+        return
     if len(unl) != 1:
         raise AnalysisBroken("recursive_mutex_impl::unlock: expected one mtx.unlock()")
     b, i, ev = unl[0]
